@@ -225,9 +225,11 @@ static void make_header_text(struct tx *t, int clock)
 {
 	int d;
 	memcpy(t->hdr, hdr_tmpl, 24);
-	t->hdr[hdr_pn_off + 0] = (uint8_t)('0' + ((t->pgno >> 8) & 15));
-	t->hdr[hdr_pn_off + 1] = (uint8_t)('0' + ((t->pgno >> 4) & 15));
-	t->hdr[hdr_pn_off + 2] = (uint8_t)('0' + (t->pgno & 15));
+	if (hdr_pn_off >= 0) {
+		t->hdr[hdr_pn_off + 0] = (uint8_t)('0' + ((t->pgno >> 8) & 15));
+		t->hdr[hdr_pn_off + 1] = (uint8_t)('0' + ((t->pgno >> 4) & 15));
+		t->hdr[hdr_pn_off + 2] = (uint8_t)('0' + (t->pgno & 15));
+	}
 	d = clock % 86400;
 	t->hdr[24] = (uint8_t)('0' + d / 36000); t->hdr[25] = (uint8_t)('0' + d / 3600 % 10); t->hdr[26] = ':';
 	t->hdr[27] = (uint8_t)('0' + d / 600 % 6); t->hdr[28] = (uint8_t)('0' + d / 60 % 10); t->hdr[29] = ':';
@@ -255,6 +257,15 @@ static void gen_header_template(struct vf_rng *r, int plain)
 	{ uint8_t tmp[40]; memset(tmp, 0x20, 8); memcpy(tmp + 8, hdr_tmpl, 24); memset(tmp + 32, 0x20, 8);
 	  sanitize_row(tmp, 8, 0); memcpy(hdr_tmpl, tmp + 8, 24); }
 	note_attr(hdr_tmpl, 24);
+	/* The statement's premise is a header that is the same on every page except page number and clock; where
+	 * the number stands is the broadcaster's choice: at the left, behind the name (above), anywhere else, flush
+	 * against the clock (columns 29-31), or not shown at all. */
+	switch (plain ? 7 : vf_below(r, 8)) {
+	case 0: hdr_pn_off = 21; break;
+	case 1: hdr_pn_off = -1; break;
+	case 2: hdr_pn_off = vf_range(r, 0, 21); break;
+	default: break;
+	}
 }
 
 /* ------------------------------------------------------------------ */
@@ -339,7 +350,7 @@ static int make_filler_unit(int mag)
 	unit_len[u] = 0; unit_mag[u] = mag;
 	memset(&p, 0, sizeof p);
 	memcpy(text, hdr_tmpl, 24); memset(text + 24, 0x20, 8);
-	text[hdr_pn_off] = (uint8_t)('0' + (mag & 7 ? mag : 8)); text[hdr_pn_off + 1] = 'F'; text[hdr_pn_off + 2] = 'F';
+	if (hdr_pn_off >= 0) { text[hdr_pn_off] = (uint8_t)('0' + (mag & 7 ? mag : 8)); text[hdr_pn_off + 1] = 'F'; text[hdr_pn_off + 2] = 'F'; }
 	tx_header(p.d, mag, 0xFF, 0x3F7F, net_serial ? CB(11) : 0, 0, text);
 	p.mag = mag; p.y = 0; p.kind = PK_FILLER; p.tx = -1;
 	unit_add(u, &p);
@@ -860,7 +871,7 @@ static int run_network(struct vf_rng *r)
 	soft_fails = 0;
 	nm = gen_network(r, &kinds);
 	vf_sample("network: %s mode, region %d, %d magazines, %d transmissions, %d packets, header '%.*s' page number at col %d",
-		  net_serial ? "serial" : "parallel", net_region, nm, n_tx, n_pk, 24, (const char *)hdr_tmpl, 8 + hdr_pn_off);
+		  net_serial ? "serial" : "parallel", net_region, nm, n_tx, n_pk, 24, (const char *)hdr_tmpl, hdr_pn_off < 0 ? -1 : 8 + hdr_pn_off);
 
 	vf_phase("vbi_decoder_new");
 	vbi = vbi_decoder_new();
